@@ -433,3 +433,61 @@ func VerifC12Compress() {
 	}
 	lib.VerifReach("compressed delivery")
 }
+
+// c12SendBy calls one of the sender methods that carry a payload.
+func c12SendBy(c *connection, m int, payload []byte) error {
+	from := gen.PID{Node: "a@h", ID: 5, Creation: 11}
+	pid := gen.PID{Node: "b@h", ID: 6, Creation: 22}
+	alias := gen.Alias{Node: "b@h", Creation: 22, ID: [3]uint64{1, 2, 3}}
+	name := gen.ProcessID{Name: "p", Node: "b@h"}
+	opts := gen.MessageOptions{Ref: gen.Ref{Node: "a@h", Creation: 11, ID: [3]uint64{9, 0, 0}}}
+	switch m {
+	case 0:
+		return c.SendPID(from, pid, opts, payload)
+	case 1:
+		return c.SendProcessID(from, name, opts, payload)
+	case 2:
+		return c.SendAlias(from, alias, opts, payload)
+	case 3:
+		return c.SendEvent(from, opts, gen.MessageEvent{Event: gen.Event{Name: "ev", Node: "a@h"}, Timestamp: 1, Message: payload})
+	case 4:
+		return c.SendResponse(from, pid, opts, payload)
+	case 5:
+		return c.CallPID(from, pid, opts, payload)
+	case 6:
+		return c.CallProcessID(from, name, opts, payload)
+	}
+	return c.CallAlias(from, alias, opts, payload)
+}
+
+// VerifC12LimitSites: every sender method that carries a payload (SendPID/ProcessID/Alias/Event,
+// SendResponse, CallPID/ProcessID/Alias), with the limit the peer announced and this node's own
+// receive limit set to different values: the message is refused (ErrTooLarge, nothing on the wire)
+// exactly when its frame - as the same call produces it without any limit - is longer than the PEER's
+// limit; this node's own limit plays no part in sending.
+func VerifC12LimitSites() {
+	m := lib.VerifShard("method", 8)
+	n := []int{10, 90, 190}[lib.VerifPick("len", 3)]
+	payload := lib.VerifBytes("p", n)
+	// the frame this call produces when nothing limits it
+	free, fs := vfConnection(&vfCore{name: "a@h", creation: 11}, "b@h", 22, 1)
+	lib.VerifAssert(c12SendBy(free, m, payload) == nil && len(fs[0].frames) == 1, "without limits the message is sent as one frame")
+	if len(fs[0].frames) != 1 {
+		return
+	}
+	frame := len(fs[0].frames[0])
+	c, sinks := vfConnection(&vfCore{name: "a@h", creation: 11}, "b@h", 22, 1)
+	c.peer_maxmessagesize = []int{0, 100, 200}[lib.VerifPick("peerlimit", 3)]
+	c.node_maxmessagesize = []int{0, 60, 400}[lib.VerifPick("ownlimit", 3)]
+	err := c12SendBy(c, m, payload)
+	tooLarge := c.peer_maxmessagesize > 0 && frame > c.peer_maxmessagesize
+	if tooLarge {
+		lib.VerifAssert(err == gen.ErrTooLarge, "a message beyond the peer's limit is refused at the sender")
+		lib.VerifAssert(len(sinks[0].frames) == 0, "a refused message puts nothing on the wire")
+		lib.VerifReach("refused")
+		return
+	}
+	lib.VerifAssert(err == nil, "a message within the peer's limit is accepted whatever this node's own limit is")
+	lib.VerifAssert(len(sinks[0].frames) == 1 && len(sinks[0].frames[0]) == frame, "an accepted message is the same single frame")
+	lib.VerifReach("accepted")
+}
